@@ -1364,4 +1364,116 @@ theorem beq_iff (a b : Trie) (ha : wf a = true) (hb : wf b = true) :
            sub_of_has _ b a (Nat.le_refl _) hb ha (fun q hq hh => by rw [h q hq]; exact hh)⟩
 
 end Trie
+/-! ### Escaping of user keys (fix C10-F19) -/
+
+theorem escKey_ne_dollar (k : Key) : escKey k ≠ dollar := by
+  cases k with
+  | i z => simp [escKey, dollar]
+  | s s =>
+    simp only [escKey]
+    by_cases h : allDollars s = true
+    · simp only [h, if_true, dollar]
+      intro e
+      injection e with e
+      injection e with _ e
+      subst e
+      simp [allDollars] at h
+    · simp only [h]
+      intro e
+      simp only [dollar] at e
+      injection e with e
+      subst e
+      exact h (by decide)
+
+theorem unescKey_escKey (k : Key) : unescKey (escKey k) = k := by
+  cases k with
+  | i z => rfl
+  | s s =>
+    simp only [escKey]
+    by_cases h : allDollars s = true
+    · simp [h, unescKey]
+    · simp only [h]
+      cases s with
+      | nil => rfl
+      | cons c rest =>
+        simp only [unescKey]
+        by_cases hc : c = '$' ∧ allDollars rest = true
+        · exfalso
+          apply h
+          simp only [allDollars, List.isEmpty_cons, Bool.not_false, Bool.true_and, List.all_cons,
+            Bool.and_eq_true, decide_eq_true_eq]
+          refine ⟨hc.1, ?_⟩
+          have := hc.2
+          simp only [allDollars, Bool.and_eq_true] at this
+          exact this.2
+        · simp [hc]
+
+theorem escKey_unescKey (k : Key) (h : k ≠ dollar) : escKey (unescKey k) = k := by
+  cases k with
+  | i z => rfl
+  | s s =>
+    cases s with
+    | nil => rfl
+    | cons c rest =>
+      simp only [unescKey]
+      by_cases hc : c = '$' ∧ allDollars rest = true
+      · simp only [hc, and_self, if_true, escKey, hc.1]
+      · simp only [hc, if_false, escKey]
+        by_cases ha : allDollars (c :: rest) = true
+        · exfalso
+          simp only [allDollars, List.isEmpty_cons, Bool.not_false, Bool.true_and, List.all_cons,
+            Bool.and_eq_true, decide_eq_true_eq] at ha
+          cases rest with
+          | nil => exact h (by rw [ha.1]; rfl)
+          | cons d rest' =>
+            apply hc
+            refine ⟨ha.1, ?_⟩
+            simp only [allDollars, List.isEmpty_cons, Bool.not_false, Bool.true_and]
+            exact ha.2
+        · simp [ha]
+
+theorem escKey_injective (a b : Key) (h : escKey a = escKey b) : a = b := by
+  rw [← unescKey_escKey a, ← unescKey_escKey b, h]
+
+theorem escP_injective (p q : Path) (h : escP p = escP q) : p = q := by
+  induction p generalizing q with
+  | nil => cases q <;> simp [escP] at h ⊢
+  | cons a p ih =>
+    cases q with
+    | nil => simp [escP] at h
+    | cons b q =>
+      simp only [escP, List.map_cons, List.cons.injEq] at h
+      rw [escKey_injective a b h.1, ih q h.2]
+
+theorem dollarFree_escP (p : Path) : dollarFree (escP p) = true := by
+  unfold dollarFree escP
+  rw [List.all_eq_true]
+  intro k hk
+  obtain ⟨k', _, rfl⟩ := List.mem_map.mp hk
+  simpa using escKey_ne_dollar k'
+
+theorem unescP_escP (p : Path) : unescP (escP p) = p := by
+  unfold unescP escP
+  rw [List.map_map]
+  conv => rhs; rw [← List.map_id p]
+  apply List.map_congr_left
+  intro k _
+  exact unescKey_escKey k
+
+theorem escP_unescP (p : Path) (h : dollarFree p = true) : escP (unescP p) = p := by
+  unfold unescP escP
+  rw [List.map_map]
+  conv => rhs; rw [← List.map_id p]
+  apply List.map_congr_left
+  intro k hk
+  unfold dollarFree at h
+  rw [List.all_eq_true] at h
+  exact escKey_unescKey k (by simpa using h k hk)
+
+theorem decide_escP_eq (p q : Path) : decide (escP q = escP p) = decide (q = p) := by
+  by_cases h : q = p
+  · subst h; simp
+  · have : ¬ escP q = escP p := fun e => h (escP_injective q p e)
+    simp [h, this]
+
 end Pg.C10
